@@ -134,11 +134,18 @@ Definition conv_code (c : bcase) : Z :=
    address of its consensus key and no two records share a key.  0 holds, 1 fails *)
 Definition keyed_code (c : bcase) : Z := if key_mismatchb c then 1 else 0.
 
-Definition check_case (c : bcase) : list Z := [mm_code c; tm_code c; acc_code c; rule_code c; conv_code c; keyed_code c].
+(* monitor 5 (since /repo e681066): no validator record has negative power.  0 holds, 1 fails *)
+Definition negp_code (c : bcase) : Z :=
+  if existsb (fun d => (c_power d <? 0) || (c_stake d <? 0)) (b_cands (k_in c)) then 1 else 0.
+
+Definition check_case (c : bcase) : list Z :=
+  [mm_code c; tm_code c; acc_code c; rule_code c; conv_code c; keyed_code c; negp_code c].
 Definition check_cases (cs : list bcase) : list Z := flat_map check_case cs.
 
-(* a block in which the node called logger.Fatal (process exit) inside EndBlock: 1 = some validator
-   record has negative power (trigger C10.negative_power_record; the fee share computed from it is
+(* a block in which the node called logger.Fatal / panicked (process exit) inside EndBlock.  Both
+   classes below were findings repaired by /repo e681066; the check now treats EVERY node exit as
+   a violation and prints the class only as a diagnosis: 1 = some validator
+   record has negative power (was trigger C10.negative_power_record; the fee share computed from it is
    negative and MinusFromPool refuses it), 3 = the powers of the table sum to zero (trigger C10.zero_total_power;
    the fee share divides by vs.totalPower), 2 = crash outside the known triggers *)
 Definition neg_powerb (b : blockin) : bool := existsb (fun c => c_power c <? 0) (b_cands b).
